@@ -473,6 +473,31 @@ def _as_constant_array(t: Union["Tensor", np.ndarray]) -> np.ndarray:
     return t
 
 
+def _weakly_type_python_scalars(
+    input_vars: Sequence[ArrayLike], tensor_vars: Tuple["Tensor", ...]
+) -> Tuple["Tensor", ...]:
+    """Under NumPy 2 (NEP 50) a Python ``bool``/``int``/``float`` operand is
+    'weakly' typed: it adopts the dtype of the array operands whenever its kind
+    permits, e.g. ``float32-array + 2.0 -> float32``. Wrapping such a scalar in a
+    0-d array gives it a 'strong' default dtype (``int64``/``float64``) instead.
+    This casts each wrapped Python scalar to the dtype that NumPy's promotion
+    rules assign to it alongside the other operands."""
+    is_py_scalar = [type(v) in (bool, int, float) for v in input_vars]
+    if not any(is_py_scalar) or all(is_py_scalar):
+        return tensor_vars
+    other_dtypes = [
+        t.dtype for t, is_scalar in zip(tensor_vars, is_py_scalar) if not is_scalar
+    ]
+    out = []
+    for v, t, is_scalar in zip(input_vars, tensor_vars, is_py_scalar):
+        if is_scalar:
+            dtype = np.result_type(v, *other_dtypes)
+            if dtype != t.dtype:
+                t = type(t)(np.asarray(v, dtype=dtype), constant=True, copy=False)
+        out.append(t)
+    return tuple(out)
+
+
 def _null_grads_of_view_family(tensor: "Tensor"):
     """Nulls the gradient of ``tensor`` and of all of its (nested) views."""
     tensor.null_grad()
@@ -1096,6 +1121,9 @@ class Tensor:
             cls(var, constant=True, copy=False) if not isinstance(var, Tensor) else var
             for var in input_vars
         )
+
+        if NP_IS_V2:
+            tensor_vars = _weakly_type_python_scalars(input_vars, tensor_vars)
 
         # cast all input-vars to tensors
         if _track.TRACK_GRAPH and _mem.MEM_GUARD:
